@@ -243,3 +243,40 @@ def run_batch(specs, runner):
         o["got"] = ch
         o["diff"] = drv.compare(o["lines"], o["expect"], ch)
     return outs
+
+
+# ----------------------------------------------------------------------------- ParallelTemperingOptimizer (GFO.Model.Population)
+
+def run_pt_scenario(spec):
+    assert spec["opt"] == "ParallelTemperingOptimizer"
+    tape = Tape()
+    holder = {}
+
+    def on_built(opt):
+        holder["inits"] = [[[int(x) for x in p] for p in m.init.init_positions_l] for m in opt.systems]
+        for m in opt.systems:
+            instance_patches(m, tape)
+    with module_patches(tape):
+        out = scen.run_scenario(spec, with_model=False, on_built=on_built)
+    real = out["real"]
+    opt, rec, records, space = real["opt"], real["rec"], real["records"], real["space"]
+    m0 = opt.systems[0]
+    inits = holder["inits"]
+    pnew = (f"pnew {opt.init.n_inits} {int(m0.n_neighbours)} {tok_rat(opt.rand_rest_p)} {int(opt.n_iter_swap)} {len(inits)} " +
+            " ".join(f"{len(l)} " + " ".join(" ".join(str(x) for x in p) for p in l) for l in inits)).rstrip()
+    pnew = " ".join(pnew.split())
+    f = real["f"]
+    lines, expect = drv.encode_history(space, opt.init.n_inits, opt, rec, records, (lambda k, para: f(para)),
+                                       local=dict(lnew=pnew, tape=tape.lines))
+    raised = any(r["exc"] is not None for r in records)
+    if not raised:
+        lines.append("pstate")
+        expect.append("outer " + tracker_core(opt))
+        for m in opt.systems:
+            expect.append("member " + tracker_core(m))
+        cur = opt.systems.index(opt.p_current) if getattr(opt, "p_current", None) is not None else 0
+        expect.append(f"pop cur={cur} tapeLeft=0")
+    out.update(lines=lines, expect=expect)
+    out["tape_kinds"] = dict(tape.kinds)
+    out["tape_len"] = len(tape.lines)
+    return out
